@@ -97,6 +97,10 @@ def observe(h, t, full=True):
 
 
 def queries(h, r, u, stored, t, n):
+    if u is None:
+        for x in r.sample(stored, min(len(stored), 25)):
+            h.emit("get %d %d %x" % (t, x[0], x[1]))
+        return
     for _ in range(n):
         if stored and r.random() < 0.8:
             a, ski = r.choice(stored)[:2]
@@ -283,6 +287,199 @@ def gen_malformed(r, hid):
     return h
 
 
+def gen_regrow(r, hid, base_bit, level, by_source):
+    """grow -> partial shrink -> regrow on ONE table, scaled to the table's own initial size 2^base_bit (read from the
+    implementation under test): fill until the table is stable at M = 2^(base_bit+level) buckets (count = M/2), drop into
+    the band M/16 < count < M/8 where a shrink has started but cannot finish (most keys belong to one source that goes
+    away, or are removed one by one), then grow past M/2 again so that the grow step takes over the unfinished shrink
+    in backward direction.  Every stored key is looked up afterwards."""
+    h = Hist(hid, "regrow")
+    M = 1 << (base_bit + level)
+    h.emit("new 0")
+    h.emit("hl 0")
+    asns = r.sample(range(1, 1 << 17), 300) + [0, M32, 65001]
+    # short SKIs / keys keep the replay readable; byte-level differences are the subject of the cmp / forced classes
+    skis = [1, 0xaa, 0xab, 1 << 159]
+    spkis = [0xbb, 0xbc | (1 << 727)] if r.random() < 0.3 else [0xbb, 0xbc]
+    keep = r.randrange(M // 16 + 1, M // 8)                      # survivors of phase 2
+    top1 = M // 2 + r.choice([0, 0, 1, 3])
+    stored, sset = [], set()
+
+    def fresh(src):
+        while True:
+            rec = (r.choice(asns), r.choice(skis), r.choice(spkis), src)
+            if rec not in sset:
+                return rec
+
+    def add(rec):
+        h.emit("add 0 " + rec_args(rec))
+        h.emit("hl 0")
+        sset.add(rec)
+        stored.append(rec)
+
+    # phase 1: `keep` keys of sources 2/3 interleaved with keys of source 1
+    order = [r.choice([2, 3]) for _ in range(keep)] + [1] * (top1 - keep)
+    r.shuffle(order)
+    for src in order:
+        add(fresh(src))
+    observe(h, 0)
+    # phase 2
+    if by_source:
+        h.emit("srcrm 0 1")
+        h.emit("hl 0")
+        stored = [x for x in stored if x[3] != 1]
+    else:
+        victims = [x for x in stored if x[3] == 1]
+        r.shuffle(victims)
+        for rec in victims:
+            h.emit("rm 0 " + rec_args(rec))
+            h.emit("hl 0")
+        stored = [x for x in stored if x[3] != 1]
+    sset = set(stored)
+    observe(h, 0)
+    queries(h, r, None, stored, 0, 0)
+    # phase 3: the source comes back
+    top3 = M // 2 + r.choice([1, 2, 5, 17])
+    while len(stored) < top3:
+        add(fresh(1))
+    observe(h, 0)
+    pairs = sorted(set((x[0], x[1]) for x in stored))
+    for a, ski in pairs:
+        h.emit("get 0 %d %x" % (a, ski))
+    for ski in skis:
+        h.emit("byski 0 %x" % ski)
+    # every key can still be removed, and added again
+    some = r.sample(stored, min(len(stored), 40))
+    for rec in some:
+        h.emit("rm 0 " + rec_args(rec))
+    for rec in some:
+        h.emit("add 0 " + rec_args(rec))
+    observe(h, 0)
+    h.emit("free 0")
+    h.emit("new 0")
+    return h
+
+
+SKI_BYTES, SPKI_BYTES = 20, 91
+
+
+def flip_byte(v, nbytes, pos, x):
+    """big-endian number v of nbytes bytes with byte number pos (0 = first) xor-ed with x"""
+    return v ^ (x << (8 * (nbytes - 1 - pos)))
+
+
+def one_field_variants(r, base):
+    """records that differ from `base` in exactly one field -> list of (class, record)"""
+    a, ski, spki, src = base
+    out = []
+    for bit in (0, 31, r.randrange(1, 31)):
+        out.append(("asn", (a ^ (1 << bit), ski, spki, src)))
+    out.append(("asn", ((a + r.randrange(1, M32)) & M32, ski, spki, src)))
+    for pos, name in ((0, "ski[0]"), (SKI_BYTES - 1, "ski[19]"), (r.randrange(1, SKI_BYTES - 1), "ski[mid]")):
+        out.append((name, (a, flip_byte(ski, SKI_BYTES, pos, r.choice([1, 0x80, 0xff])), spki, src)))
+    for pos, name in ((0, "spki[0]"), (19, "spki[19]"), (20, "spki[20]"), (SPKI_BYTES - 1, "spki[90]"),
+                      (r.randrange(21, SPKI_BYTES - 1), "spki[mid]")):
+        out.append((name, (a, ski, flip_byte(spki, SPKI_BYTES, pos, r.choice([1, 0x80, 0xff])), src)))
+    out.append(("src", (a, ski, spki, (src + r.randrange(1, 16)) % 16)))
+    return [(c, rec) for c, rec in out if rec != base]
+
+
+def base_record(r):
+    kind = r.randrange(4)
+    if kind == 0:
+        return (r.getrandbits(32), r.getrandbits(160), r.getrandbits(728), r.randrange(16))
+    if kind == 1:
+        return (r.choice([0, 1, 65001, M32]), 0, 0, r.randrange(16))
+    if kind == 2:
+        return (r.getrandbits(17), (1 << 160) - 1, (1 << 728) - 1, r.randrange(16))
+    return (r.getrandbits(32), r.choice([0xaa, 1 << 159]), r.choice([0xbb, 1 << 727]), r.randrange(16))
+
+
+def gen_cmp(r, hid, n=12):
+    """key_entry_cmp itself: 0 iff the two entries agree in AS, SKI, key and source"""
+    h = Hist(hid, "cmp")
+    for _ in range(n):
+        base = base_record(r)
+        h.emit("cmp %s %s" % (rec_args(base), rec_args(base)))
+        for _, v in one_field_variants(r, base):
+            if r.random() < 0.5:
+                h.emit("cmp %s %s" % (rec_args(base), rec_args(v)))
+            else:
+                h.emit("cmp %s %s" % (rec_args(v), rec_args(base)))
+        # several fields at once
+        vs = one_field_variants(r, base)
+        x, y = r.choice(vs)[1], r.choice(vs)[1]
+        mixed = tuple(x[i] if x[i] != base[i] else y[i] for i in range(4))
+        h.emit("cmp %s %s" % (rec_args(base), rec_args(mixed)))
+    return h
+
+
+def gen_forced(r, hid):
+    """different records filed under the SAME 32-bit hash (what a full collision of the table's hash would produce):
+    they must stay distinct for search, duplicate detection and removal."""
+    h = Hist(hid, "forced")
+    h.emit("fnew")
+    H = r.getrandbits(32)
+    others = [H ^ (1 << r.randrange(6, 32)), r.getrandbits(32)]            # same bucket for small tables / unrelated
+    base = base_record(r)
+    variants = [v for _, v in one_field_variants(r, base)]
+    r.shuffle(variants)
+    absent = variants[:3]
+    # make sure one absent variant differs in the AS number only
+    asn_only = (base[0] ^ (1 << r.randrange(32)),) + base[1:]
+    if asn_only not in absent:
+        absent[0] = asn_only
+    present = [base] + [v for v in variants[3:] if v not in absent]
+    for rec in present:
+        h.emit("fadd %08x %s" % (H, rec_args(rec)))
+        h.emit("fhl")
+    h.emit("fbuckets")
+    for rec in r.sample(present, min(3, len(present))):
+        h.emit("fadd %08x %s" % (H, rec_args(rec)))                          # true duplicates
+    for rec in absent:
+        h.emit("fget %08x %s" % (H, rec_args(rec)))
+        h.emit("frm %08x %s" % (H, rec_args(rec)))                           # must not remove a neighbour
+    for rec in present:
+        h.emit("fget %08x %s" % (H, rec_args(rec)))
+        h.emit("fget %08x %s" % (others[0], rec_args(rec)))                  # other key, same record: absent
+    # the same records under another hash are different entries; fill so that the chain is split by a grow step
+    for rec in present[:4]:
+        h.emit("fadd %08x %s" % (others[0], rec_args(rec)))
+    for k in range(r.choice([0, 30, 70])):
+        h.emit("fadd %08x %s" % (r.choice([H, others[0], others[1], r.getrandbits(32)]), rec_args(base_record(r))))
+        if k % 7 == 0:
+            h.emit("fhl")
+    h.emit("fbuckets")
+    for rec in absent:
+        h.emit("fadd %08x %s" % (H, rec_args(rec)))                          # now they can be added
+    order = present + absent
+    r.shuffle(order)
+    for rec in order:
+        h.emit("frm %08x %s" % (H, rec_args(rec)))
+        h.emit("fget %08x %s" % (H, rec_args(rec)))
+    h.emit("fhl")
+    h.emit("fbuckets")
+    h.emit("fnew")
+    return h
+
+
+BUCKET_RE = None
+
+
+def parse_buckets(line):
+    """'buckets 3:[rec,rec] 7:[BADKEY rec]' -> (list of (index, [record strings]), number of BADKEY marks)"""
+    import re
+    global BUCKET_RE
+    if BUCKET_RE is None:
+        BUCKET_RE = re.compile(r"(\d+):\[([^\]]*)\]")
+    out = []
+    bad = line.count("BADKEY")
+    for m in BUCKET_RE.finditer(line):
+        body = m.group(2).replace("BADKEY ", "").replace("BADKEY", "")
+        out.append((int(m.group(1)), [x for x in body.replace(" ", "").split(",") if x]))
+    return out, bad
+
+
 # ------------------------------------------------------------------------------------------
 # oracle: the statement of C10 over plain Python sets
 # ------------------------------------------------------------------------------------------
@@ -328,6 +525,7 @@ def oracle(ops, out):
     R = [set() for _ in range(NT)]          # replay of the callback stream of table t
     consistent = [True] * NT                # whether replay == contents is demanded at this point
     lastlist = [None] * NT
+    F = set()                               # forced-hash table: (hash text, record)
 
     def fail(cl, i, msg):
         fails.append((cl, i, msg))
@@ -420,13 +618,10 @@ def oracle(ops, out):
         elif cmd in ("list", "buckets") and t is not None:
             toks = line.split()[1:]
             if cmd == "buckets":
-                recs = []
-                for tok in toks:
-                    if "BADKEY" in tok:
-                        fail("rep", i, "a node's key is not the hash of its AS number")
-                        continue
-                    body = tok.split(":[", 1)[1].rstrip("]")
-                    recs += [parse_rec_str(x) for x in body.split(",") if x]
+                bl, nbad = parse_buckets(line)
+                if nbad:
+                    fail("rep", i, "a node's key is not the hash of its AS number")
+                recs = [parse_rec_str(x) for _, b in bl for x in b]
             else:
                 recs = [parse_rec_str(x) for x in toks]
             if len(set(recs)) != len(recs):
@@ -448,6 +643,45 @@ def oracle(ops, out):
             if got != S[t]:
                 fail("set", i, "%s differs from the mathematical set: missing %s extra %s" % (
                     cmd, [rec_str(x) for x in sorted(S[t] - got)][:3], [rec_str(x) for x in sorted(got - S[t])][:3]))
+        elif cmd == "cmp" and len(w) == 9:
+            a, b = _parse_rec_words(w[1:5]), _parse_rec_words(w[5:9])
+            if a is None or b is None:
+                continue
+            if line not in ("0", "1") or (line == "0") != (a == b):
+                diff = [n for n, x, y in zip(("AS", "SKI", "key", "source"), a, b) if x != y]
+                fail("set", i, "key_entry_cmp says %s for two entries that %s" % (
+                    "equal" if line == "0" else "different" if line == "1" else line,
+                    "differ in " + "/".join(diff) if diff else "are identical"))
+        elif cmd == "fnew":
+            F.clear()
+        elif cmd in ("fadd", "fget", "frm") and len(w) == 6:
+            rec = _parse_rec_words(w[2:])
+            if rec is None or len(w[1]) != 8:
+                continue
+            key = (w[1].lower(), rec)
+            if cmd == "fadd":
+                exp = "-2" if key in F else "0"
+                if line != exp:
+                    fail("set", i, "entry %s filed under hash %s: insertion answered %s, expected %s (%d other entries under that hash)" % (
+                        rec_str(rec), w[1], line, exp, sum(1 for k in F if k[0] == key[0] and k != key)))
+                if line == "0":
+                    F.add(key)
+            else:
+                exp = "1 " + rec_str(rec) if key in F else "0"
+                if line != exp:
+                    fail("set", i, "%s of %s under hash %s answered '%s', expected '%s' (entries under that hash: %s)" % (
+                        "search" if cmd == "fget" else "removal", rec_str(rec), w[1], line, exp,
+                        [rec_str(k[1]) for k in sorted(F) if k[0] == key[0]][:4]))
+                if cmd == "frm" and line.startswith("1 "):
+                    try:
+                        F.discard((key[0], parse_rec_str(line.split()[1])))
+                    except (ValueError, IndexError):
+                        pass
+        elif cmd == "fbuckets":
+            bl, _ = parse_buckets(line)
+            got = sorted(parse_rec_str(x) for _, b in bl for x in b)
+            if got != sorted(k[1] for k in F):
+                fail("rep", i, "forced-hash table holds %d entries, %d were inserted and not removed" % (len(got), len(F)))
         elif cmd == "log" and t is not None:
             for tok in line.split()[1:]:
                 rec = parse_rec_str(tok[1:])
